@@ -3,6 +3,7 @@ package props
 import (
 	"encoding/json"
 	"fmt"
+	"strconv"
 	"strings"
 
 	"pault.ag/go/debian/dependency"
@@ -469,6 +470,12 @@ func (c06) satCase(t *core.T, op, n string, v model.Ver) {
 	vr := dependency.VersionRelation{Operator: op, Number: n}
 	got := vr.SatisfiedBy(libVer(v))
 	parsable := n != "" && !strings.ContainsAny(n, " _") && n != "abc" && n != "a:1" && n != "1:" && n != "-" && n != "~1"
+	if i := strings.IndexByte(n, ':'); i > 0 {
+		// an epoch beyond 2^63-1 is "oversized" and rejected by the parser (C03), so the constraint is unparsable
+		if e, err := strconv.ParseUint(n[:i], 10, 64); err != nil || e > 1<<63-1 {
+			parsable = false
+		}
+	}
 	want := false
 	if !parsable {
 		t.Cover("sat:unparsable-number")
